@@ -929,5 +929,6 @@ func c18Controls() []core.Mutant {
 		{Name: "integer fast path for membership in a range", File: "vm/vm.go", Old: "\t\tcase OpIn:\n\t\t\tb := vm.pop()\n\t\t\ta := vm.pop()\n\t\t\tvm.push(in(a, b))", New: "\t\tcase OpIn:\n\t\t\tb := vm.pop()\n\t\t\ta := vm.pop()\n\t\t\tif xs, ok := b.([]int); ok {\n\t\t\t\tn, isInt := a.(int)\n\t\t\t\tvm.push(isInt && len(xs) > 0 && n >= xs[0] && n <= xs[len(xs)-1])\n\t\t\t\tbreak\n\t\t\t}\n\t\t\tvm.push(in(a, b))", Rule: "R18.5", Construct: "membership has one meaning"},
 		{Name: "length of a string counted in runes", File: "vm/runtime.go", Old: "\tcase reflect.Array, reflect.Slice, reflect.Map, reflect.String:\n\t\treturn v.Len()", New: "\tcase reflect.String:\n\t\treturn len([]rune(v.String()))\n\tcase reflect.Array, reflect.Slice, reflect.Map:\n\t\treturn v.Len()", Rule: "R18.7", Construct: "open slice bound"},
 		{Name: "range membership rewritten for every operand type", File: "optimizer/in_range.go", Old: "t != nil && (t.Kind() != reflect.Int || t.PkgPath() != \"\")", New: "t != nil && t.Kind() == reflect.Invalid", Rule: "R18.5", Construct: "inRange"},
+		{Name: "count opens its scope before its collection is evaluated", File: "compiler/compiler.go", Old: "\tcase \"count\":\n\t\tcount := c.makeConstant(\"count\")\n\t\tc.compile(node.Arguments[0])\n\t\tc.emit(OpBegin)\n", New: "\tcase \"count\":\n\t\tcount := c.makeConstant(\"count\")\n\t\tc.emit(OpBegin)\n\t\tc.compile(node.Arguments[0])\n", Rule: "R18.2", Construct: "collection is evaluated before the scope is opened"},
 	}
 }
